@@ -164,10 +164,11 @@ class Runnable(ABC):  # pylint: disable=too-many-instance-attributes
         """
         Wake up, if do was sleeping, and do things right away.
         """
-        if self.__interrupt is None:
+        interrupt = self.__interrupt     # read once: the loop thread clears it when it exits
+        if interrupt is None:
             log.warning("not running, wake ignored")
             return
-        self.__interrupt.set()
+        interrupt.set()
 
     def start(self, *, daemon=True, **kwargs):
         """
@@ -197,9 +198,12 @@ class Runnable(ABC):  # pylint: disable=too-many-instance-attributes
         """
         Stop the service, allowing any do() to complete first.
         """
+        if forever:
+            # set before __stopping, so the loop thread cannot miss it when it decides whether to call done();
+            # a final stop is never undone by a later stop(forever=False)
+            self.__shutdown = True
         self.__stopping = True
         self.wake()
-        self.__shutdown = forever
         thread = self.__thread  # otherwise race condition -- self.__thread can change value in another thread
         if thread:
             if threading.current_thread() != thread:
